@@ -646,6 +646,13 @@ impl World {
                         .iter()
                         .find(|(i, _)| *i == id)
                         .map(|(_, p)| *p as usize);
+                    // a reply for a call that has already resolved (e.g. with DeadlineExceeded) is
+                    // late: its entry is certainly gone
+                    if let Some(p) = payload {
+                        if st.callers.get(p).map(|c| c.status == CS::Done).unwrap_or(false) {
+                            stray = true;
+                        }
+                    }
                     let is_err = payload
                         .and_then(|p| self.cfg.callers.get(p))
                         .map(|c| c.reply_err)
